@@ -1549,7 +1549,9 @@ impl<T: PackedInt> IntVec<T> {
         let bits_needed = bit_in_byte + bits as usize;
         let bytes_needed = (bits_needed + 7) / 8;
 
-        if byte_offset + bytes_needed <= data.len() && bytes_needed <= 8 {
+        // The unaligned access below reads and writes a full 8 bytes at byte_offset, so all
+        // eight must lie inside the buffer (not just the bytes the field occupies)
+        if byte_offset + 8 <= data.len() && bytes_needed <= 8 {
             // Fast unaligned write using hardware acceleration
             let data_ptr = unsafe { data.as_mut_ptr().add(byte_offset) };
             let current = unsafe { UnalignedOps::read_u64_unaligned(data_ptr) };
